@@ -21,7 +21,7 @@ import types
 from . import drops, gen, replay
 from .common import Check
 
-FORBIDDEN = {"auto_escape", "env", "filters", "tags", "num", "secret", "method", "prop", "_private", "data", "__init__", "__globals__", "__dict__", "__doc__", "__module__",
+FORBIDDEN = {"strftime", "isoformat", "timetuple", "utcoffset", "auto_escape", "env", "filters", "tags", "num", "secret", "method", "prop", "_private", "data", "__init__", "__globals__", "__dict__", "__doc__", "__module__",
              "_d", "_l", "_s", "_hide", "__subclasses__", "__mro__", "__bases__", "__func__", "__self__", "__code__", "__closure__"}
 MARKS = re.compile(r"SECRET|4242|<class|<bound method|<function|<module|object at 0x|built-in|mappingproxy|slot wrapper|method-wrapper|<property")
 HANDED: list[str] = []
